@@ -1,4 +1,35 @@
-(* C25 correspondence: the expvar deltas after every step of a history on the
-   real Runtime vs the counters of Run/Loader.v (snapshots carry counters). *)
-From V Require Export Corr.LoaderRun.
-Definition mismatches := lmismatches.
+(* C25 correspondence.
+   C25L: the expvar deltas after every step of a loader history on the real
+         Runtime vs the counters of Run/Loader.v (snapshots carry counters).
+   C25T: an end-to-end run of mtail.Server (real tailer, real loader) over
+         generated log files: after every tailer event (file created and picked
+         up, bytes appended, file removed) the deltas of log_count, lines_total
+         and log_lines_total per file vs Run/TailCounters.v. *)
+From V Require Export Corr.LoaderRun Run.TailCounters.
+Local Open Scope N_scope.
+
+Record tobs := mktobs { to_log_count : Z; to_lines_total : N; to_log_lines : list (bytes * N) }.
+
+Definition tobs_ok (ts : tstate) (o : tobs) : bool :=
+  Z.eqb (to_log_count o) (ts_log_count ts)
+  && N.eqb (to_lines_total o) (N.of_nat (length (ts_out ts)))
+  && forallb (fun fn => N.eqb (snd fn) (counted ts (fst fn))) (to_log_lines o)
+  && forallb (fun fn => match blookup (fst fn) (to_log_lines o) with
+                        | Some _ => true
+                        | None => N.eqb (snd fn) 0
+                        end) (ts_counted ts).
+
+Inductive c25case :=
+| C25L (c : lcase)
+| C25T (id : N) (evs : list tev) (obs : list tobs).
+
+Definition c25_id (c : c25case) : N :=
+  match c with C25L l => lcase_id l | C25T i _ _ => i end.
+
+Definition c25_ok (c : c25case) : bool :=
+  match c with
+  | C25L l => lcase_ok l
+  | C25T _ evs obs => all2 tobs_ok (ttrace ts_empty evs) obs
+  end.
+
+Definition mismatches (l : list c25case) : list N := failing c25_ok c25_id l.
